@@ -53,12 +53,18 @@
 //! resolver source files); `Target::Package` = bare specifier. `resolved` is the file of the set
 //! the specifier names (exact, or with `.ts` appended).
 //!
+//! JSON object keys come out sorted (serde_json without `preserve_order`); `Val::Object` itself
+//! keeps source order.
+//!
 //! The property checks C13 (`c13::check_c13`) and C24 (`c24::check_c24`) live here as library
-//! functions over an `ArtifactSet`; see their module docs.
+//! functions over an `ArtifactSet`; see their module docs. `raw` compiles hand-written projects
+//! in-process and is the replay format of the checked-in C13 / C24 regression inputs
+//! (`raw::replay_c13`, `raw::replay_c24`).
 
 pub mod c13;
 pub mod c24;
 pub mod jsstr;
+pub mod raw;
 mod read;
 mod value;
 
